@@ -178,6 +178,8 @@ func execMusig(op string, a []string) string {
 		return hx(out[:])
 	case op == "musig" && len(a) == 4:
 		return session(a[0] == "1", msg32(unhex(a[1])), parseTweakOpt(a[2]), a[3])
+	case op == "ctx" && len(a) == 4:
+		return ctxSession(a[0] == "1", msg32(unhex(a[1])), parseTweakOpt(a[2]), a[3])
 	case op == "pverify" && len(a) == 8:
 		var s btcec.ModNScalar
 		if s.SetByteSlice(unhex(a[0])) {
@@ -249,6 +251,98 @@ func session(sort bool, msg [32]byte, tw tweakOpt, signersS string) string {
 	final := musig2.CombineSigs(ps[0].R, ps, tw.combine(msg, copyKeys(keys), sort)...)
 	return fmt.Sprintf("%s s=%s pv=%s xv=%s yv=%s sig=%x v=%s", head, strings.Join(ss, ","), strings.Join(pv, ","),
 		strings.Join(xv, ","), strings.Join(yv, ","), final.Serialize(), b01(final.Verify(msg[:], agg.FinalKey)))
+}
+
+func (t tweakOpt) ctx() []musig2.ContextOption {
+	switch t.kind {
+	case "b":
+		return []musig2.ContextOption{musig2.WithBip86TweakCtx()}
+	case "t":
+		return []musig2.ContextOption{musig2.WithTaprootTweakCtx(t.root)}
+	case "p":
+		return []musig2.ContextOption{musig2.WithTweakedContext(append([]musig2.KeyTweakDesc{}, t.tweaks...)...)}
+	}
+	return nil
+}
+
+// ctxSession runs the same session through the Context / Session API of context.go (every signer has its
+// own Context with the full signer list, a pre-generated deterministic nonce, registers the other nonces,
+// signs; signer 0 combines). Observation: aggregate key and final signature (or the failing stage).
+func ctxSession(sort bool, msg [32]byte, tw tweakOpt, signersS string) string {
+	var privs []*btcec.PrivateKey
+	var keys []*btcec.PublicKey
+	var rands [][]byte
+	for _, s := range strings.Split(signersS, ",") {
+		kv := strings.Split(s, ":")
+		priv := privFrom(kv[0])
+		privs, keys, rands = append(privs, priv), append(keys, priv.PubKey()), append(rands, unhex(kv[1]))
+	}
+	var sessions []*musig2.Session
+	var agg *btcec.PublicKey
+	for i, priv := range privs {
+		opts := append([]musig2.ContextOption{musig2.WithKnownSigners(copyKeys(keys))}, tw.ctx()...)
+		c, err := musig2.NewContext(priv, sort, opts...)
+		if err != nil {
+			return "err:keyagg"
+		}
+		k, err := c.CombinedKey()
+		if err != nil {
+			return "err:keyagg"
+		}
+		agg = k
+		n, err := musig2.GenNonces(musig2.WithCustomRand(bytes.NewReader(rands[i])), musig2.WithPublicKey(priv.PubKey()))
+		if err != nil {
+			return "err:noncegen"
+		}
+		s, err := c.NewSession(musig2.WithPreGeneratedNonce(n))
+		if err != nil {
+			return "err:session"
+		}
+		sessions = append(sessions, s)
+	}
+	head := fmt.Sprintf("agg=%x", agg.SerializeCompressed())
+	for i, s := range sessions {
+		for j, o := range sessions {
+			if i == j {
+				continue
+			}
+			if _, err := s.RegisterPubNonce(o.PublicNonce()); err != nil {
+				return head + " err:nonceagg"
+			}
+		}
+	}
+	var ps []*musig2.PartialSignature
+	for _, s := range sessions {
+		var so []musig2.SignOption // like a real caller: no explicit WithSortedKeys, the Context owns the flag
+		if len(sessions) == 1 {
+			// a single signer never calls RegisterPubNonce, so the combined nonce is registered explicitly
+			an, err := musig2.AggregateNonces([][musig2.PubNonceSize]byte{s.PublicNonce()})
+			if err != nil {
+				return head + " err:nonceagg"
+			}
+			if err := s.RegisterCombinedNonce(an); err != nil {
+				return head + " err:nonceagg"
+			}
+		}
+		p, err := s.Sign(msg, so...)
+		if err != nil {
+			return head + " err:sign"
+		}
+		ps = append(ps, p)
+	}
+	for j := 1; j < len(ps); j++ {
+		if _, err := sessions[0].CombineSig(ps[j]); err != nil {
+			return head + " err:combine"
+		}
+	}
+	final := sessions[0].FinalSig()
+	if final == nil {
+		if len(ps) == 1 {
+			return head + " single"
+		}
+		return head + " err:nofinal"
+	}
+	return fmt.Sprintf("%s sig=%x", head, final.Serialize())
 }
 
 // ---------------------------------------------------------------- generators
@@ -507,6 +601,10 @@ func genMusig(g *core.Gen) {
 		for _, d := range ds {
 			ss = append(ss, fmt.Sprintf("%x:%x", b32(d), r.Bytes(32)))
 		}
-		g.Case(fmt.Sprintf("musig:n=%d", n), true, fmt.Sprintf("C11 musig %d %x %s %s", r.Intn(2), randMsg(r), randTweaks(r, 3), strings.Join(ss, ",")))
+		line := fmt.Sprintf("%d %x %s %s", r.Intn(2), randMsg(r), randTweaks(r, 3), strings.Join(ss, ","))
+		g.Case(fmt.Sprintf("musig:n=%d", n), true, "C11 musig "+line)
+		if i%2 == 0 {
+			g.Case(fmt.Sprintf("ctx:n=%d", n), true, "C11 ctx "+line)
+		}
 	}
 }
